@@ -75,6 +75,12 @@ def c02_runs(tier, scale):
     return [("c02", [1200 * scale, 4, 4], None), ("c02", [600 * scale, 6, 4], None), ("c01", [800 * scale, 4], None)]
 
 
+def c04_runs(tier, scale):
+    if tier == "thorough":
+        return [("c04", [400 * scale], None) for _ in range(12)] + [("c03", [1500 * scale, 30], None) for _ in range(4)]
+    return [("c04", [60 * scale], None), ("c04", [60 * scale], None), ("c03", [250 * scale, 12], None)]
+
+
 PROPS = {
     "C01": {
         "lean_modules": ["AvroProofs.C01"],
@@ -248,6 +254,25 @@ PROPS = {
         "partial": [{"theorem": "Avro.C02.encode_sound / decode_complete",
                      "excluded_by": "PrimFacts hypothesis (closed facts about the modelled num-bigint / uuid-text primitives) for the uuid-string arm; non-canonical "
                                     "(zero-padded) varints are not part of SpecEnc"}],
+        "assumptions": [],
+    },
+    "C04": {
+        "lean_modules": ["AvroProofs.C04", "AvroProofs.C03"],
+        "theorems": ["Avro.C04.header_accepted", "Avro.C04.reader_accepts", "Avro.C04.writer_header_spec", "Avro.C04.writer_layout",
+                     "Avro.C03.history_layout"],
+        "harness": c04_runs,
+        "projection": "okerr",
+        "nontrivial": lambda l: True,
+        "rule": "generated schemas x 0..9 values; A: files written by the real Writer (null, deflate, snappy, bzip2, xz; block sizes 0/1/64/16000; user "
+                "metadata) read by the independent implementation (own header/block parser + reference datum decoder + Python zlib(-15)/bz2/lzma + own snappy "
+                "raw decoder and CRC-32); B: files written by the independent implementation (random block partitions incl. one value per block / one "
+                "block / empty file / an empty block, metadata map in random multi-block layouts with negative counts, shuffled entries, unknown avro.* "
+                "keys, user keys; payloads compressed by the reference codecs) read by the real Reader; plus C03's model correspondence rows (counted as lines)",
+        "trusted_base": DATUM_TB + ["the harness's reference container reader/writer and snappy/CRC-32 code; Python's zlib, bz2, lzma modules",
+                                    "zstandard has no reference implementation in this sandbox (round trip only, C15)"],
+        "partial": [{"theorem": "Avro.C04.reader_accepts",
+                     "excluded_by": "blocks are non-empty in the theorem (BlockOk); an empty block is covered by the oracle; the embedded schema's JSON<->Schema "
+                                    "step is C10's subject (schema/env are parameters of the model reader); PrimFacts hypothesis inherited from C02"}],
         "assumptions": [],
     },
 }
